@@ -494,6 +494,10 @@ class Directory(object):
 
     def unregister_computation(self, computation: ComputationName,
                                agent: AgentName=None):
+        if agent is not None and \
+                self._computations_data.get(computation, agent) != agent:
+            # stale request: the computation is now hosted by another agent
+            return
         try:
             self._computations_data.pop(computation)
             self.discovery.unregister_computation(computation, publish=False)
@@ -606,9 +610,13 @@ class DiscoveryComputation(MessagePassingComputation):
 
     def _on_computation_removed(self, _: DiscoveryName,
                                 msg: UnPublishComputationMessage):
-        self.discovery.unregister_computation(
-            msg.computation, msg.agent, publish=False)
-        pass
+        try:
+            self.discovery.unregister_computation(
+                msg.computation, msg.agent, publish=False)
+        except ValueError:
+            # stale notification: the computation has a new host already
+            self.logger.info('Ignoring removal of %s from %s',
+                             msg.computation, msg.agent)
 
     def _on_replica_publish(self, _, msg: PublishReplicaMessage):
         if msg.publish:
